@@ -121,7 +121,7 @@ func contractsFor(eng *Eng, id string) ([]funcTask, []*Lemma, []string) {
 	sort.Strings(keys)
 	for _, k := range keys {
 		for _, con := range eng.con.Funcs[k] {
-			if con.Trusted {
+			if con.Trusted || con.hasClause("summary") {
 				continue
 			}
 			serves := false
